@@ -11,6 +11,23 @@ CLAIMED = {
          "Trusts the harness's model of the documented mark/sweep contract; the model never touches a handle it considers reclaimed. Leaks are not violations.",
          "DESIGN.md §4 C17"),
 }
+CLAIMED.update({
+ "C08": ("exploration",
+         "round-trip property testing (proptest over a choice tape driving a grammar-based generator): parse, print, re-parse, compare canonical trees",
+         "For generated syntactically valid modules (every production of the grammar, explicit parentheses anywhere, all literal forms) and every repository .sam file, the formatter output must re-parse without syntax error to the same canonical tree (names, literals, operators and grouping, patterns, annotations, modifiers, order; imports as a set) at several widths. Exploration over a large sample; failures are shrunk to a minimal module.",
+         "Trusts the parser as reader of both texts (its faithfulness is checked by C14/C05) and the harness's canonical dump. One recorded finding (same-operator re-association, pinned by an existing test) is normalised away so the search continues.",
+         "DESIGN.md §4 C08"),
+ "C09": ("exploration",
+         "property testing with a grammar-based generator placing comments in every trivia slot; oracles: print twice (idempotence) and comment inventory by an independent tokenizer",
+         "Generated modules with line/block/doc comments before every token class; the formatter is applied once and twice. Output of the second application must equal the first; every comment of the input (read by the harness's own tokenizer) must appear in the output with the same kind and words, in the same relative order (multiset for the import section). Findings are keyed by the AST attachment site of the comment.",
+         "Trusts the harness tokenizer (written from spec section 2). Comment text is compared word-wise. 26 recorded findings (comment drop / reorder sites, wrap artefact, non-idempotence in presence of comments) are tolerated by exact signature; idempotence on inputs with comments is attributed to one coarse finding, see DESIGN.md section 7.",
+         "DESIGN.md §4 C09"),
+ "C14": ("exploration",
+         "property testing with adversarial-layout generator; validity predicate over every AST location plus ground-truth token positions from an independent tokenizer",
+         "For generated modules with tabs, CR, CRLF, blank lines, multi-line comments, non-ASCII text and long lines, every location of the parsed tree must lie inside the document, have start<=end, be enclosed by its parent, list siblings ordered and disjoint, names must spell exactly the name, construct boundaries must coincide with the expected delimiter tokens; syntax-error and checker diagnostic locations (incl. reference locations) must lie inside the document.",
+         "Trusts the harness tokenizer for ground-truth positions; columns are byte offsets. Locations returned by LSP queries are checked by the same predicate inside C11/C15/C16.",
+         "DESIGN.md §4 C14"),
+})
 NOT_YET = {}
 
 props = [json.loads(l) for l in open(os.path.join(HERE, "properties.jsonl"))]
